@@ -63,6 +63,8 @@ def mk_time(secs, carrier):
         return np.array(secs, dtype="int64")
     if carrier == "epoch_list":
         return list(secs)
+    if carrier in ("epoch_i4", "epoch_u4", "epoch_f8"):   # epoch seconds as stored on disk: 32-bit integers, doubles
+        return np.array(secs, dtype={"epoch_i4": "int32", "epoch_u4": "uint32", "epoch_f8": "float64"}[carrier])
     raise KeyError(carrier)
 
 
@@ -147,7 +149,13 @@ def run_task(task, acc):
             for x in alpha.all_seqs(SIGMA, 1, 3):
                 for gaps in itertools.product(GAPS[:3], repeat=len(x) - 1):
                     for thr in THR[:3]:
-                        yield dict(fn="roc", x=list(x), gaps=list(gaps), carrier="epoch_list", thr=thr)
+                        for carrier in ("epoch_list", "epoch_i4", "epoch_u4", "epoch_f8"):
+                            yield dict(fn="roc", x=list(x), gaps=list(gaps), carrier=carrier, thr=thr)
+            for tr in itertools.product(POS[:4], repeat=3):
+                for gaps in itertools.product(SGAPS, repeat=2):
+                    th = thresholds_for([list(p) for p in tr], gaps)
+                    for carrier in ("epoch_i4", "epoch_u4", "epoch_f8", "epoch_list"):
+                        yield dict(fn="speed", track=[list(p) for p in tr], gaps=list(gaps), carrier=carrier, suspect=th[0], fail=th[-1])
             for x in alpha.all_seqs(SIGMA, 1, 4):
                 if alpha.NAN in x:
                     for thr in THR[:4]:
